@@ -1312,6 +1312,8 @@ STD_MODELS = [
     (r"^core::bool::<impl bool>::then_some::<.*>$", ext_bool_then_some),
     (r"^<(?:std::result::)?Result<.*> as Try>::branch$", ext_res_try_branch),
     (r"^<(?:std::result::)?Result<.*> as FromResidual<(?:std::result::)?Result<Infallible, .*>>>::from_residual$", lambda e, m, a: ("enum", "Result::Err", [a[0][2][0]])),
+    (r"^<(?:i16|i32|i64|i128|u16|u32|u64|u128|usize|isize) as (?:std::convert::)?From<(?:i8|i16|i32|i64|u8|u16|u32|u64|bool)>>::from$", lambda e, m, a: (z3.If(a[0], 1, 0) if is_sym(a[0]) and z3.is_bool(a[0]) else (int(a[0]) if isinstance(a[0], bool) else a[0]))),
+    (r"^<(?:i8|i16|i32|i64|u8|u16|u32|u64) as (?:std::convert::)?Into<(?:i16|i32|i64|i128|u16|u32|u64|u128)>>::into$", lambda e, m, a: a[0]),
     (r"^std::result::Result::<.*>::unwrap_or$", ext_res_unwrap_or),
     (r"^std::result::Result::<.*>::or::<.*>$", lambda e, m, a: a[0] if a[0][1].endswith("Ok") else a[1]),
     (r"^std::option::Option::<.*>::or$", lambda e, m, a: a[0] if a[0][0] == "Some" else a[1]),
